@@ -552,8 +552,8 @@ M("m88f", "C13", "R13.1", HENDRIX, "        prob_combined_demand_gteq_stock_a = 
   "        prob_combined_demand_gteq_stock_a = probs_issued_a.dot(\n            jnp.arange(len(probs_issued_a)) > stock_a\n        )", "Hendrix case 4: > instead of >= loses the mass at z == stock_a")
 M("m88g", "C13", "R13.4", FOREST, "        self._probability_matrix = jnp.array([[1 - self.p, self.p], [1, 0]])", "        self._probability_matrix = jnp.array([[1 - self.p, self.p], [1, self.p]])",
   "Forest: cut row sums to 1 + p", survives="no")
-M("m88h", "C13", "R13.1", DEMOOR, "        return self.demand_probabilities[random_event]", "        return jax.scipy.stats.poisson.pmf(random_event, self.demand_gamma_mean)",
-  "a new, untriaged distribution call site", survives="no")
+# (m88h - a new, untriaged distribution call site - was retired when R13.1 stopped guessing: a call nobody has read now ends in
+#  ANALYSIS-ERROR, no verdict, instead of a VIOLATION; see DESIGN.md 10.9, fifth round)
 B("b35", ["C13", "C16"], DEMOOR, "        demand_probabilities = demand_probabilities.at[-1].add(\n            1 - demand_probabilities.sum()\n        )",
   "        demand_probabilities = demand_probabilities.at[-1].add(\n            1.0 - jnp.sum(demand_probabilities)\n        )", "sum spelled as a function")
 
